@@ -5,9 +5,7 @@ from vlib import core
 THEOREMS = ["Props.C12." + t for t in [
     "marker_cfg_facts", "first_content_kept", "first_content_kept_history", "patches_only_appended", "dup_dropped", "conflict_renamed", "siblings_are_family", "sib_injective", "patch_goes_to_last", "unnamed_first_is_error", "feed_error_iff", "feed_never_panics_or_hangs", "nothing_lost", "names_unique", "old_witness_repaired", "scan_lossless", "patches_in_order", "markers_removed", "text_preserved", "replacer_order_irrelevant"]]
 
-PARTIAL = [dict(theorem="Props.C12.names_unique_partial",
-                hypothesis="noRenameShaped (histNames calls) (histLen calls) = true  -- no submitted name equals <base>_<k><ext> of a submitted name, 1 <= k <= number of items",
-                why="names_unique is false on the code: Feed [a.go:X, a_1.go:X, a.go:Y] answers two files named a_1.go (Props.C12.names_unique_false; replayed on the implementation by every run)"),
+PARTIAL = [
            dict(theorem="Props.C12.patches_in_order / markers_removed / text_preserved",
                 hypothesis="WordPoints cfg ps  -- every patch point of the file lies in the marker alphabet",
                 why="a patch whose point has bytes outside [$.0-9a-zA-Z_] makes the replacer act on text the regexp does not call a marker; with ')' in a point the output depends on Go map order (docs/C12.md)")]
@@ -62,7 +60,7 @@ def run(ctx):
                 rc, out = core.sh([exe, "replay", "-repo", core.REPO, "-dir", d, "-file", ctx.replay], timeout=3000)
             else:
                 rc, out = core.sh([exe, "run", "-repo", core.REPO, "-dir", d, "-seed", str(ctx.seed), "-tier", ctx.tier,
-                                   "-part", str(part), "-parts", str(parts)], timeout=3000)
+                                   "-part", str(part), "-parts", str(parts), "-corpus", os.path.join(core.VERIF, "replays")], timeout=3000)
             if rc != 0:
                 raise core.MachineryError("c12 run failed: " + out[-2000:])
             acc = merge_stats(acc, json.load(open(os.path.join(d, "stats.json"))))
@@ -78,15 +76,15 @@ def run(ctx):
                        distribution=acc["distribution"], exhaustive=False)
         if not ctx.replay:
             w = [k for k in acc["distribution"] if k.startswith("witness-names:")]
-            ok = w == ["witness-names:a.go,a_1.go,a_1.go"]
-            ctx.obligation("negative-witness-reproduces-on-implementation(Props.C12.names_unique_false)", ok,
-                           "" if ok else "implementation answered %s for Feed[a.go:X, a_1.go:X, a.go:Y]; if the rename defect was repaired, "
-                           "update FileManager.probe as described in docs/C12.md (then names_unique holds in full)" % w)
+            ok = w == ["witness-names:a.go,a_1.go,a_2.go"]
+            ctx.obligation("regression:old-witness-answers-distinct-names-on-implementation(Props.C12.old_witness_repaired)", ok,
+                           "" if ok else "implementation answered %s for Feed[a.go:X, a_1.go:X, a.go:Y], expected a.go,a_1.go,a_2.go "
+                           "(the defect repaired by /repo 54c21d0 is back)" % w)
         for f in (acc.get("oracle_failures") or []):
             ctx.add_violation(f["key"], f["what"], f["input"], f["expected"], f["observed"])
     if ctx.replay:
         return ctx.finish(rule="replay of one recorded Feed history (full proof obligations re-checked; the history is run on the implementation, the model and the oracle)")
-    return ctx.finish(rule="Feed histories: 16 fixed cases (the repo's pinned tests, the suspected defect, marker corner cases), renaming chains "
+    return ctx.finish(rule="Feed histories: the corpus of past failures (replays/C12-*.json) first, 17 fixed cases (the repo's pinned tests, the witnesses of the defect repaired by 54c21d0, marker corner cases), renaming chains "
                            "of length 2..14, then seeded random histories (1-4 calls, quick: <=12 items, thorough: <=40) over small per-history pools of "
                            "names (incl. <base>_<k><ext> shapes), contents (0..n markers, marker-like text) and points (in and outside the marker alphabet); "
                            "non-trivial = has a patch or a repeated name; distinct by sha256 of the VL line")
